@@ -39,6 +39,17 @@ def run(R, ctx):
             R.bad('R12.1', f"{b.path}|no-gate", f"{b.path} takes the specification write lock but never reaches log::set_max_level: "
                   "the global max level is not recomputed with the new specification", where=b.loc(wbb))
         upd = calls_named(b, r'LogSpecification::update_from$')
+        # once the specification is stored, the gate is set on EVERY path to the return: a conditional set (e.g. "only if the level
+        # differs from log::max_level() read earlier") decides on a value another thread may have changed in between
+        for ubb, _ in upd:
+            follows = must_pass_after(b, ubb, [s_[0] for s_ in sites])
+            R.check('R12.1', f"{b.path}|gate-after-every-store", follows, "every path after update_from sets the gate",
+                    f"{b.path}: a path after update_from returns without setting log's max level (conditional gate update): two concurrent changes can end with "
+                    "the specification of one and the gate of the other", where=b.loc(ubb))
+        reads = [bb for bb, t in b.calls() if callee_name(t) == 'log::max_level']
+        R.check('R12.1', f"{b.path}|no-gate-read", not reads, "the function does not read log::max_level()",
+                f"{b.path} reads log::max_level() (at {[b.loc(x) for x in reads][:2]}): a decision based on it is stale as soon as another thread changes the specification",
+                where=b.loc(reads[0]) if reads else b.loc())
         for (bb, callee, kind) in sites:
             held = la.must_held_local(b.path, bb)
             ok = SPEC_GUARD in held
